@@ -80,6 +80,13 @@ BlankLine == LET y == TokT(In)  lo == LineOfSeq(In)  ex == ExemptSeq(In) IN
                IN x.toks = ShiftFrom(y.toks, k)
                   /\ x.notes = [j \in 1..Len(y.notes) |-> IF y.notes[j] >= k THEN y.notes[j] + 1 ELSE y.notes[j]]
 
+(* line numbers are raw line numbers: whatever precedes it (hyphenated words, notices, blank lines), a word on a
+   fresh line is credited to that line -- unless the text before it ends in a hyphen, which joins it to that word (hyphens pile up: `a--\n\nb` reads `ab`) *)
+NLCount(in) == Cardinality({i \in 1..Len(in) : in[i] = NL})
+TailLine == ~Fold(S0, In \o <<NL>>, 1, TRUE).dE =>                     \* the line break is not swallowed by a hyphen
+               LET ts == TokT(In \o <<NL, "b">>).toks IN
+               ts # <<>> /\ ts[Len(ts)].w = <<"b">> /\ ts[Len(ts)].l = NLCount(In) + 2
+
 (* C06 on the tokenizer level.  WordsOnly compares the word sequences (C06 does not speak about lines). *)
 WordsOf(x) == Words(TokT(x).toks)
 NoticeLine == <<"c","o","p","y","r","i","g","h","t"," ","2","0","2","0"," ","x", NL>>
